@@ -108,6 +108,11 @@ impl<CS: CLCiphersuite> Signature<CL03<CS>> {
             return false;
         }
 
+        // attributes live in [0, 2^lm): without this check (e, s, v * a_0^k) verifies for m + k*e
+        if message.value < 0 || message.value >= Integer::from(2).pow(CS::lm) {
+            return false;
+        }
+
         if lhs == rhs {
             return true;
         }
@@ -137,7 +142,15 @@ impl<CS: CLCiphersuite> Signature<CL03<CS>> {
 
         rhs = (&rhs * Integer::from(pk.b.pow_mod_ref(&sign.s, &pk.N).unwrap()) * &pk.c) % &pk.N;
 
-        if sign.e <= Integer::from(2).pow(CS::le - 1) {
+        if sign.e <= Integer::from(2).pow(CS::le - 1) || sign.e >= Integer::from(2).pow(CS::le) {
+            return false;
+        }
+
+        // attributes live in [0, 2^lm): without this check (e, s, v * a_i^k) verifies for m_i + k*e
+        if messages
+            .iter()
+            .any(|m| m.value < 0 || m.value >= Integer::from(2).pow(CS::lm))
+        {
             return false;
         }
 
